@@ -105,19 +105,24 @@ namespace __vstd
         Cmp cmp_;
 
         // first index whose key is not less than k
+        // Written for the solver: the array is sorted, so "first index whose key is not less than k" equals the
+        // NUMBER of keys less than k.  Counting has a trip count of exactly n_ (no data-dependent exit), which keeps
+        // the unwinding concrete when the keys are symbolic.
         size_type lower(const Key& k) const
         {
-            size_type i = 0;
-            while (i < n_ && cmp_(KeyOf()(slot_[i]->v), k))
-                ++i;
-            return i;
+            size_type c = 0;
+            for (size_type i = 0; i < n_; ++i)
+                if (cmp_(KeyOf()(slot_[i]->v), k))
+                    ++c;
+            return c;
         }
         size_type upper(const Key& k) const
         {
-            size_type i = 0;
-            while (i < n_ && !cmp_(k, KeyOf()(slot_[i]->v)))
-                ++i;
-            return i;
+            size_type c = 0;
+            for (size_type i = 0; i < n_; ++i)
+                if (!cmp_(k, KeyOf()(slot_[i]->v)))
+                    ++c;
+            return c;
         }
         std::pair<iterator, bool> insert_node(node_t* nd)
         {
@@ -130,8 +135,9 @@ namespace __vstd
             }
             if (n_ >= VSTD_MAP_CAP)
                 __vstd_bound(3);
-            for (size_type j = n_; j > i; --j)
-                slot_[j] = slot_[j - 1];
+            for (size_type j = n_; j > 0; --j)
+                if (j > i)
+                    slot_[j] = slot_[j - 1];
             slot_[i] = nd;
             ++n_;
             return std::pair<iterator, bool>(iterator(slot_ + i), true);
